@@ -97,6 +97,22 @@ CLAIMED = {
         design='§6 C01, App. A',
         note=COMMON_NOTE + 'Theorems are about serial histories (no lifecycle call issued while another is in progress), which is where the property can hold: overlapping calls interfere through transitions\' cancellation of in-flight triggers — known findings F-A2/F-A2c/F-A2d/F-A3 (open), matched by violation kind so that any other misbehaviour under overlap is still reported. transitions/apluggy/asyncio are modelled, not verified.',
         technique='Lean 4 proofs over a deterministic API-level model + generated FSM table (translator) + differential correspondence with a simulated child under a permuting event loop'),
+    'C04': dict(
+        text=('Theorems over model K (exception clean-up in spawned/plugin/plugins/compose.py and the runner): for every exception whose traceback is the '
+              'runner\'s own frames followed by user frames, what is reported starts at the first user frame and keeps every user frame in order; a '
+              'KeyboardInterrupt that surfaced inside Nextline\'s trace machinery is cut back to the user frames; a SyntaxError from the script\'s own '
+              'compilation shows no Nextline frame; no Nextline frame survives in any cleaned traceback; every character the script writes reaches the '
+              'real stdout unchanged and in order (C13\'s pass-through theorem). That CPython computes the same with the trace function installed is not '
+              'a theorem: it is tied by a differential correspondence — generated programs (control flow, defs, classes, generators, lambdas, caught and '
+              'uncaught exceptions, threads, asyncio tasks, executor threads; two thirds carrying introspective statements: eagerly evaluated annotations, '
+              'namespace listings, exception state, closures, generator finalisation) × statement form {source text, path, callable, code object} × command '
+              'policy × trace_threads × trace_modules, run through the child\'s real trace machinery in-process against an untraced reference execution '
+              '(per-thread/task stdout, return value, exception type, innermost line, traceback shape), plus the forms through a real spawn child.'),
+        design='§6 C04',
+        note=COMMON_NOTE + 'Partial by nature: the quantifier “whatever commands are issued, any script” ranges over CPython\'s semantics under sys.settrace, '
+             'which is sampled by the generator, not proved. stderr (CPython\'s RuntimeWarning about inlined comprehensions under a trace function) and '
+             'timing are outside the statement. Code-object statements under spawn: open finding F-G1.',
+        technique='Lean 4 proof of the traceback-cleaning and pass-through core + differential correspondence against an untraced reference execution'),
     'C03': dict(
         text=('Theorems over model A: close() never raises in any reachable state; a second close() does nothing; when no run is in progress the first close() returns at once with the broker closed (every earlier subscription terminates, by C08), state closed, no child alive; while a run is in progress close() waits and, whatever else the environment does, returns as soon as the child exits — however it ends — with state closed and no child alive. Tied to /repo by exact correspondence (close issued at every point of every short serial history, from a fresh task each time, subscribers attached before and after start) and an oracle; overlapping calls under the permuting loop (oracle).'),
         design='§6 C03',
